@@ -585,20 +585,92 @@ def skip(R, P):
     groups = {tuple(sorted(k)): v for k, v in by.items()}
     tag = [v for k, v in groups.items() if "TAG" in k]
     R.check(len(tag) == 1 and len(tag[0]) == 1 and not any(tag[0][0].blk in b for b in loops.values()), "SKIP", "tag:one-further-item", where(f, tag[0][0]) if tag else f.name, "a tag is followed by exactly one item")
+    # how often a loop runs, whichever way it counts: `for (v = 0; v < N; v++)` or `for (v = N; v > 0; v--)` (v written
+    # nowhere else in the loop); returns the node N (or a constant)
+    def trip_count(header, body):
+        g_ = RU.cmp_norm(f, f.blocks[header].cond, True) if f.blocks[header].cond is not None else None
+        if not g_ or g_[2] is None:
+            return None
+        l_, r_ = RU.uncast(f, g_[0]), RU.uncast(f, g_[2])
+        flip = {"<": ">", ">": "<", "!=": "!="}
+        for v_, op_, o_ in ((l_, g_[1], r_), (r_, flip.get(g_[1]), l_)):
+            if v_ is None or v_["k"] != "var" or op_ is None:
+                continue
+            steps = []
+            for b_ in body | {header}:
+                for el in f.blocks[b_].elems:
+                    for x in f.walk(el):
+                        tgt = f.d(x["a"][0]) if x.get("a") else None
+                        if tgt is not None and tgt["k"] == "var" and tgt["n"] == v_["n"]:
+                            if x["k"] == "un" and x["op"] in ("post++", "pre++"):
+                                steps.append(1)
+                            elif x["k"] == "un" and x["op"] in ("post--", "pre--"):
+                                steps.append(-1)
+                            elif x["k"] == "bin" and x["op"] in ("=", "+=", "-=", "*=", "/="):
+                                steps.append(0)
+            init = None
+            for e_ in f.all_events():
+                if e_.kind == "decl":
+                    for vv in e_.node["vars"]:
+                        if vv["n"] == v_["n"] and vv.get("init") is not None:
+                            init = vv["init"]
+            if init is None:
+                for b_ in f.blocks.values():
+                    if b_.id in body or b_.id == header:
+                        continue
+                    for el in b_.elems:
+                        if el["k"] == "bin" and el["op"] == "=" and (f.d(el["a"][0]) or {}).get("k") == "var" and f.d(el["a"][0])["n"] == v_["n"]:
+                            init = el["a"][1]
+            if op_ == "<" and steps == [1] and init is not None and f.is_const(RU.uncast(f, init)) == 0:
+                return o_
+            if op_ in (">", "!=") and steps == [-1] and f.is_const(o_) == 0 and init is not None:
+                return RU.uncast(f, init)
+        return None
+
+    def count_var(pop_fn, member):
+        """the local that holds the element count: read from the cache member of its own type"""
+        out = []
+        for e_ in f.all_events():
+            if e_.kind == "decl":
+                for vv in e_.node["vars"]:
+                    if vv.get("init") is not None and f.show(f.d(vv["init"])).endswith("u." + member):
+                        out.append(vv["n"])
+        return out
+
+    def total_runs(ev):
+        """product of the trip counts of the loops around ev, as (list of count nodes / constants)"""
+        around = sorted([(h, b) for h, b in loops.items() if ev.blk in b], key=lambda hb: -len(hb[1]))
+        return [trip_count(h, b) for h, b in around]
+
+    def is_var(n_, names):
+        for _ in range(5):
+            n_ = RU.see_bound(f, RU.uncast(f, n_)) if n_ is not None else None
+            if n_ is None or n_["k"] != "var":
+                return False
+            if n_["n"] in names:
+                return True
+            n_ = f.aliases().get(n_["n"])
+        return False
     arr = [v for k, v in groups.items() if "ARRAY_START" in k]
-    okA = len(arr) == 1 and len(arr[0]) == 1
+    acnt, mcnt = count_var("array", "array_start"), count_var("map", "map_start")
+    okA = len(arr) == 1 and len(arr[0]) == 1 and len(acnt) == 1
     if okA:
-        body = [(h, b) for h, b in loops.items() if arr[0][0].blk in b]
-        okA = len(body) == 1 and f.show(f.blocks[body[0][0]].cond).replace(" ", "") == "(i<num_array_item)"
-    R.check(okA, "SKIP", "array:n-items", where(f, arr[0][0]) if arr else f.name, "one item per element, i < num_array_item")
+        tc = total_runs(arr[0][0])
+        okA = len(tc) == 1 and tc[0] is not None and is_var(tc[0], acnt)
+    R.check(okA, "SKIP", "array:n-items", where(f, arr[0][0]) if arr else f.name, "one item is skipped per element: the skip runs exactly <element count> times")
     mp = [v for k, v in groups.items() if "MAP_START" in k]
-    okM = len(mp) == 1 and len(mp[0]) == 2
+    okM = len(mp) == 1 and len(mcnt) == 1 and len(mp[0]) in (1, 2)
     if okM:
-        body = [(h, b) for h, b in loops.items() if mp[0][0].blk in b and mp[0][1].blk in b]
-        okM = len(body) == 1 and f.show(f.blocks[body[0][0]].cond).replace(" ", "") == "(i<num_map_item)"
-    R.check(okM, "SKIP", "map:two-items-per-entry", where(f, mp[0][0]) if mp else f.name, "key and value per entry, i < num_map_item")
-    decls = {v["n"]: f.show(f.d(v["init"])) for e in f.all_events() if e.kind == "decl" for v in e.node["vars"] if v.get("init") is not None}
-    R.check(decls.get("num_map_item", "").endswith("u.map_start") and decls.get("num_array_item", "").endswith("u.array_start"), "SKIP", "counts-from-own-member", "%s()" % f.name, "the counts are read from the member of their own type")
+        tcs = [total_runs(e_) for e_ in mp[0]]
+        if len(mp[0]) == 2:
+            # key and value skipped one after the other inside one loop over the entries
+            okM = all(len(t_) == 1 and t_[0] is not None and is_var(t_[0], mcnt) for t_ in tcs)
+        else:
+            # one skip inside a loop of two inside the loop over the entries
+            t_ = tcs[0]
+            okM = len(t_) == 2 and t_[0] is not None and t_[1] is not None and is_var(t_[0], mcnt) and f.is_const(RU.resolve(f, t_[1])) == 2
+    R.check(okM, "SKIP", "map:two-items-per-entry", where(f, mp[0][0]) if mp else f.name, "key and value are skipped per entry: 2 x <entry count> items")
+    R.check(len(acnt) == 1 and len(mcnt) == 1, "SKIP", "counts-from-own-member", "%s()" % f.name, "the counts are read from the member of their own type")
     ind = [(k, v) for k, v in groups.items() if any(x and x.startswith("INDEF") for x in k)]
     okI = len(ind) == 1 and len(ind[0][1]) == 1
     if okI:
